@@ -124,6 +124,9 @@ func goEpilogue(s *spec.Spec, v Variant) string {
 	}
 	fmt.Fprintf(&b, "\nfunc vFields(v *ValType) map[string]interface{} {\n\treturn map[string]interface{}{%s}\n}\n", strings.Join(fl, ", "))
 	fmt.Fprintf(&b, "\nconst vNSyms = %d\n", 2+len(s.Terms)+len(s.NTs))
+	if s.EOFAlias != "" {
+		fmt.Fprintf(&b, "\nvar _ = %s // the end-marker alias must exist as a constant\n", s.EOFAlias)
+	}
 	b.WriteString(goDriverCommon)
 	if v.Object() {
 		b.WriteString(goDriverObject)
@@ -664,6 +667,9 @@ func tsEpilogue(s *spec.Spec) string {
 	}
 	fmt.Fprintf(&b, "function vFields(v :any) :any {\n\treturn {%s}\n}\n", strings.Join(fl, ", "))
 	fmt.Fprintf(&b, "const vNSyms = %d\n", 2+len(s.Terms)+len(s.NTs))
+	if s.EOFAlias != "" {
+		fmt.Fprintf(&b, "const vEndMarkerAlias :number = %s\n", s.EOFAlias)
+	}
 	b.WriteString(tsDriver)
 	return b.String()
 }
